@@ -272,6 +272,30 @@ CHECKS.update({
              "model spaces as C03."),
 })
 
+CHECKS.update({
+    "C12": dict(
+        text="All 25 registered intermediates x {once, fully expanded} x "
+             "index tuples {default, every transposition of same-space "
+             "names, renamed, numbered, repeated pair}, each request in a "
+             "pristine forked interpreter: MP t-amplitudes against "
+             "determinant-space RSPT (once expanded: off-shell step identity "
+             "with formal lower amplitudes; fully expanded: the explicitly "
+             "computed MP series), densities against the order-n coefficient "
+             "of <Psi|a+a|Psi>/<Psi|Psi>, RE residuals against the projected "
+             "RSPT equation of the RE partitioning, t2eri_1..7 / t2sq against "
+             "the contraction table typed from the adcc documentation, "
+             "t2eri_A/B against the libadc formulas on those tables; every "
+             "permutation reported by tensor_symmetry is verified on the "
+             "value table of the definition.",
+        design="4 C12, 8.2",
+        note="Trusted: vmc/fock.py, vmc/rspt.py, reference interpreter, the "
+             "re-typed einsum table. Bounded: models (2,2) (formal orbital "
+             "energies), (3,3)/(4,4) with ONE generic rational point of "
+             "orbital energies for on-shell comparisons (integrals formal); "
+             "fully expanded t2_3 in (3,3) only in the thorough tier. "
+             "Vanishing spin blocks are decided in C15."),
+})
+
 NOT_YET = {}
 
 
